@@ -169,6 +169,9 @@ fn soil_opt(s: u64) -> Option<u64> {
 
 pub fn replay(_ctx: &Ctx, case: &str) -> Result<(), String> {
     let kv = Kv::parse(case)?;
+    if kv.opt("fn").is_some() {
+        return crate::c10::replay(_ctx, case); // one-shot call
+    }
     if kv.opt("static").is_some() {
         return crate::c08::check_agree(Kind::parse(kv.str("kind")), kv.usize("k"), kv.usize("r"), kv.usize("bytes")).map(|_| ()).map_err(|(e, o)| format!("expected {e}; observed {o}"));
     }
@@ -273,6 +276,17 @@ pub fn run(ctx: &Ctx, rep: &mut Report) {
     }
     rep.extra("observations_by_call_and_outcome", ok);
 
+    // the one-shot functions: truthful errors, no panics, no Ok for invalid input
+    let (n_one, bad) = crate::c10::oneshot_sweep(&refm, ctx.seed);
+    rep.evaluations += n_one;
+    rep.transitions += n_one;
+    rep.traces += n_one;
+    rep.states += n_one;
+    rep.distinct += n_one;
+    rep.bound("oneshot_calls", J::s(format!("{n_one} argument tuples of encode()/decode(): lists of <= 2 originals and <= 1 recovery shard over (index alphabet) x (sizes 0, 2, 3, 64) for (1,1) (2,1) (2,2) (3,2), complete valid inputs followed by one surplus item, unsupported count pairs with complete valid input")));
+    for (kv, exp, obs) in bad {
+        rep.violation(Violation { key: format!("oneshot-{}-k{}r{}-{}-{}", kv.str("fn"), kv.str("k"), kv.str("r"), kv.opt("lens").or(kv.opt("orig")).unwrap_or(""), kv.opt("rec").unwrap_or("")), case: kv.dump(), expected: exp, observed: obs });
+    }
     // static argument sweep: validate/new/reset over the count x size alphabet
     let counts = [0usize, 1, 2, 3, 5, 32768, 32769, 61440, 61441, 65535, 65536, 65537, 1 << 32, usize::MAX];
     let sizes = [0usize, 1, 2, 3, 64, 65, 66, usize::MAX, usize::MAX - 1];
